@@ -349,7 +349,7 @@ func (g *htmlGen) phrasing(depth int) []*hNode {
 			}
 			out = append(out, &hNode{name: name, attrs: g.attrsFor(name)})
 		case k < 9 && !g.inInteractive:
-			switch r.Intn(6) {
+			switch r.Intn(7) {
 			case 4:
 				// ruby: base text, annotations, optional parentheses; an rt/rp end tag may only go when rt/rp or nothing follows
 				rb := &hNode{name: "ruby"}
@@ -367,6 +367,9 @@ func (g *htmlGen) phrasing(depth int) []*hNode {
 					rb.kids = append(rb.kids, &hNode{text: r.Pick([]string{"tail", " t"})})
 				}
 				out = append(out, rb)
+			case 6:
+				// inline formula (foreign content): an inline box like any other
+				out = append(out, &hNode{name: "math", kids: []*hNode{{name: "mi", kids: []*hNode{{text: "x"}}}, {name: "mo", kids: []*hNode{{text: "+"}}}, {name: "mn", kids: []*hNode{{text: "1"}}}}})
 			case 5:
 				out = append(out, &hNode{name: "noscript", kids: []*hNode{{text: r.Pick([]string{"enable scripts", " x ", "y"})}}})
 			case 3:
@@ -850,6 +853,9 @@ func genHTMLDocRaw(r *core.Rand, payloads bool) string {
 		sb.WriteString("<body" + bodyAttrs + ">" + r.Pick([]string{"", "\n"}))
 		if r.Chance(1, 8) {
 			// an element that is also allowed in the head as the first thing in the body: the body start tag must stay
+			if r.Chance(1, 3) {
+				sb.WriteString(r.Pick([]string{"<!-- c -->", "<!-- a --> <!-- b -->", " \n<!--x-->\n"}))
+			}
 			sb.WriteString(r.Pick([]string{g.scriptEl(), "<noscript>enable scripts</noscript>", "<link rel=\"stylesheet\" href=\"late.css\">", "<template><p>t</p></template>", "<style>p{color:#ff0000}</style>", "<meta itemprop=\"x\" content=\"y\">"}))
 		}
 	}
@@ -890,7 +896,8 @@ func (g *htmlGen) scriptEl() string {
 		body = r.Pick([]string{"<b> raw  {{x}} </b>", " <p>a</p> <p>b</p> "})
 	default:
 		if g.payloads {
-			body = r.Pick([]string{"var x = 1 + 2; if (x) { y( x ) }", "function f(a){ return a*2 }\nf(3);", "window.a = '<b>';", "if (a < b && c > d) e();", "/* c */ go( \"</\" + \"script>\" )", ""})
+			body = r.Pick([]string{"var x = 1 + 2; if (x) { y( x ) }", "function f(a){ return a*2 }\nf(3);", "window.a = '<b>';", "if (a < b && c > d) e();", "/* c */ go( \"</\" + \"script>\" )", "",
+				"function g(a){ // double it\n  return a*2\n}\ng(3); // call", "var o = { a : 1 } // trailing\nvar p = o.a"})
 		} else {
 			body = r.Pick([]string{"x=1", "", "a<b"})
 		}
